@@ -351,7 +351,7 @@ func main() {
 		}
 	}
 	{ // long-history churn: ONE Sorted, tens of thousands of calls over 60 values
-		n := ev.Pick(r, 40000, 400000)
+		n := ev.Pick(r, 140000, 400000)
 		s := slices.NewSortedOrdered[int]()
 		var model []int
 		var g enum.LCG = 3
